@@ -1,5 +1,6 @@
 import GSProofs.Lemmas.PeerManagerInv
 import GSProofs.Lemmas.MsgQueueNotes5
+import GSProofs.Lemmas.MsgQueueExit
 /-!
 # C17 — One live message queue per peer, delivering in queued order
 
@@ -249,5 +250,81 @@ theorem fifo_links (b : Builder) (r : Req) (c sz : Nat) (send : Bool) :
   constructor
   · cases send <;> simp only [Builder.apply] <;> exact key _ _
   · exact key _ _
+
+/-! ## (S2, continued) a queue that was told to shut down really ends, and ends once
+
+`no_outlive` above says: after the last disconnect every queue of the peer has been *told* to shut down
+(`Shutdown()` = `Act.shutdown`, sets `done`).  Here, in the queue model `GS.MQ`: such a queue exits.
+After `Disconnected` the queue is out of the peer table, so nobody builds on it any more (except
+through a stale handle — that is the C15/C16 dead-queue finding); accordingly the system `LSysQ` has
+the callers' steps `build`/`wake` disabled.  Fairness: weak fairness of {run, ack} (the queue goroutine
+is scheduled; the network answers the call it is blocked in — with any result). -/
+
+open GS.MQ GS.Temporal in
+/-- **told to shut down ⇒ exits** (on every weakly fair execution without further builds, from any
+    state satisfying the signal/retry invariant `TK`, e.g. any reachable state: `runActs_tk`) -/
+theorem told_to_stop_exits {pick : GS.Alloc.Pick} {σ : Nat → GS.MQ.State} (h0 : TK (σ 0))
+    (hex : Exec (LSysQ pick) σ) (hwf : WFAll (LSysQ pick) fairAct σ) :
+    LeadsTo σ (fun s => s.done = true) (fun s => s.pc = .exited) := by
+  have htk : ∀ i, TK (σ i) := by
+    intro i
+    induction i with
+    | zero => exact h0
+    | succ i ih =>
+      rcases hex i with h | ⟨a, h⟩
+      · rw [h]; exact ih
+      · have hs : σ (i + 1) = GS.MQ.step pick (σ i) a := by
+          cases a with
+          | run pw =>
+            have h' : (if runEnabled (σ i) then some ((σ i).run pick pw) else none) = some (σ (i + 1)) := h
+            split at h'
+            · exact (Option.some.inj h').symm
+            · exact absurd h' (by simp)
+          | ack ok =>
+            have h' : (if ackEnabled (σ i) then some ((σ i).ack pick ok) else none) = some (σ (i + 1)) := h
+            split at h'
+            · exact (Option.some.inj h').symm
+            · exact absurd h' (by simp)
+          | build tx => exact absurd h (by simp [LSysQ])
+          | wake w => exact absurd h (by simp [LSysQ])
+          | shutdown => have h' : some (GS.MQ.step pick (σ i) .shutdown) = some (σ (i + 1)) := h; exact (Option.some.inj h').symm
+          | env op => have h' : some (GS.MQ.step pick (σ i) (.env op)) = some (σ (i + 1)) := h; exact (Option.some.inj h').symm
+        rw [hs]; exact step_tk pick ih a
+  intro i hd
+  by_cases hx : (σ i).pc = .exited
+  · exact ⟨i, Nat.le_refl _, hx⟩
+  · exact leadsTo_of_variant (exit_rule pick) hex hwf i ⟨htk i, hd, hx⟩
+
+open GS.MQ in
+/-- every reachable queue state satisfies `TK` (so `told_to_stop_exits` applies from it) -/
+theorem runActs_tk (pick : GS.Alloc.Pick) (peer mr mt mp : Nat) (acts : List MQ.Act) :
+    TK (runActs pick (init peer mr mt mp) acts) := by
+  have : ∀ (s : GS.MQ.State), TK s → TK (runActs pick s acts) := by
+    unfold runActs
+    induction acts with
+    | nil => intro s h; exact h
+    | cons a r ih => intro s h; exact ih _ (step_tk pick h a)
+  exact this _ (init_tk peer mr mt mp)
+
+open GS.MQ in
+/-- **the exit callback runs in exactly one kind of step, at most once per queue**: the goroutine
+    reaches `exited` only from `exiting` by the deferred function of `runQueue` (whose last action is
+    `onShutdown`, the log entry `exitCallback`), and `exited` is absorbing.  This discharges the
+    assumption "a process calls its callback exactly once, when its goroutine ends" used by the
+    peer-manager model (`queueExit`). -/
+theorem callback_once (pick : GS.Alloc.Pick) (s : GS.MQ.State) (a : MQ.Act) :
+    (s.pc ≠ .exited → (GS.MQ.step pick s a).pc = .exited →
+      s.pc = .exiting ∧ (∃ ok, a = .ack ok) ∧ ∃ l, (GS.MQ.step pick s a).log = l ++ [Event.exitCallback]) ∧
+    (s.pc = .exited → ∀ acts, (runActs pick s acts).pc = .exited) :=
+  ⟨exit_only_by_deferred pick s a, fun h acts => exited_forever pick s acts h⟩
+
+/-
+Cross-queue order during the overlap (part of known finding `overlap-shutting-down`): `fifo` is a
+statement about ONE queue.  While a stopping queue and its successor are both live, the old queue's
+message in flight (and, if it takes the work branch of its select, its queued messages) and the
+successor's messages are handed to the network by two goroutines with no ordering between them — the
+property's "messages to a peer leave in the order they were queued" does not hold across the two
+queues.  No theorem; recorded in known_findings.json.
+-/
 
 end GS.C17
